@@ -46,8 +46,8 @@ func C12(c *core.Ctx) {
 	}
 	c.Count("entry_points_with_pools", nPools)
 	c.Count("pool_consumers", nCons)
-	c.Floor("C-fanin/entry-points-with-pools", nPools, 7)
-	c.Floor("C-fanin/consumers", nCons, 7)
+	c.Floor("C-fanin/entry-points-with-pools", nPools, 6)
+	c.Floor("C-fanin/consumers", nCons, 6)
 	// result slots of the per-query fan-outs
 	for _, e := range []struct{ pkg, fn, field string }{{"pkg/closest", "Closest", "qidx"}, {"pkg/closest", "ClosestN", "qidx"}, {"pkg/updown", "TopRanking", "qidx"}} {
 		f := c.SSAFunc(e.pkg, e.fn)
@@ -60,7 +60,7 @@ func C12(c *core.Ctx) {
 	}
 	// every index re-orderer gives the same output for every arrival order of a small batch
 	nre := checkArrivalOrderIndependence(c, "C-reorder")
-	c.Floor("C-reorder/consumers", nre, 7)
+	c.Floor("C-reorder/consumers", nre, 6)
 	// ---- C-map
 	mrs := listMapRanges(c)
 	counts := map[string]int{}
@@ -76,6 +76,16 @@ func C12(c *core.Ctx) {
 			c.Ob(key+"/"+mr.class, true, mr.stmt.Pos(), "")
 		default:
 			h, ok := mapHarness[fkey]
+			if !ok {
+				// the routine may have been renamed: compare with the current names of the registered anchors
+				for ref, hh := range mapHarness {
+					i := strings.Index(ref, ".")
+					pkgRel := map[string]string{"sam": "pkg/sam", "variants": "pkg/variants", "snps": "pkg/snps", "updown": "pkg/updown"}[ref[:i]]
+					if ref[:i] == pkgName && currentName(c, pkgRel, ref[i+1:]) == mr.fn.Name.Name {
+						h, ok = hh, true
+					}
+				}
+			}
 			if !ok {
 				c.Und(key+"/order-sensitive", mr.stmt.Pos(), "iteration over a map whose body depends on iteration order, in a routine with no order-independence harness: map order must not reach output")
 				continue
@@ -94,7 +104,7 @@ func C12(c *core.Ctx) {
 	c.Count("map_iterations_single", counts["single"])
 	c.Count("map_iterations_commutative", counts["commutative"])
 	c.Count("map_iterations_order_sensitive", counts["order-sensitive"])
-	c.Floor("C-map/sites", len(mrs), 8)
+	c.Floor("C-map/sites", len(mrs), 5)
 	// ---- C-src with positive control
 	nuses := 0
 	for k, pk := range c.Pkgs {
